@@ -71,6 +71,9 @@ var (
 )
 
 func app(op string, args ...Term) string {
+	if len(args) == 0 {
+		return op // a constant (nullary function)
+	}
 	var b strings.Builder
 	b.WriteByte('(')
 	b.WriteString(op)
